@@ -1,5 +1,6 @@
 import H2T.Lemmas.FitsBlock
 import H2T.Props.C15
+import H2T.Props.C04
 
 /-! # C03 — document text is preserved: nothing lost, duplicated, reordered or invented
 
@@ -8,7 +9,10 @@ unchanged code in the situations recorded as known findings (text in `caption`/`
 `ol`/`dl`, cells whose column is allocated zero width).  What is proved here are the conservation facts of the
 individual mechanisms the text passes through: every non-whitespace character enters the pending word; placing
 a word moves it whole; the hard-wrap scan splits a piece without losing or reordering a cell; prefixing and
-padding only *add* characters around a line; the strikeout filter only adds marks.  The document-level
+padding only *add* characters around a line; the strikeout filter only adds marks.  For a whole paragraph in normal
+flow the conservation statement is proved end to end (`paragraph_text_conserved`, a corollary of the C04 refinement):
+whatever the split into text nodes, inline elements and fragment markers, and whatever the width, the non-whitespace
+characters of the lines are exactly the word characters of the text, in order.  The document-level
 statement is decided by correspondence (`src` stream of model vs implementation) and by the search oracle
 against an independent walk of the oracle DOM. -/
 
@@ -84,6 +88,14 @@ theorem pad_only_appends_spaces (tag : Tag) (w : Nat) (tl : TLine) :
 theorem strike_keeps_text (s : List Ch) (h : ∀ c ∈ s, C15.isMark c = false) :
     (strikeFilter s).filter (fun c => !C15.isMark c) = s :=
   C15.strike_only_adds_marks s h
+
+/-- **a paragraph's text is conserved** (wrap layer, normal flow, default options): for every split of the text
+    over `add_text` calls with arbitrary tags and fragment markers and every width ≥ 1, if the block returns lines
+    then their non-whitespace characters are exactly the text's word characters, in document order -/
+theorem paragraph_text_conserved (w : Nat) (parts : List Part) (ls : List (List Ch)) (hw : 1 ≤ w)
+    (hpos : ∀ wd ∈ Spec.words (partsText parts), 0 < Spec.lwc wd) (h : C04.wrapParts w parts = .ok ls) :
+    nonWs ls.flatten = wordChars (partsText parts) :=
+  C04.wrap_conserves_text w parts ls hw hpos h
 
 /-! non-vacuity: "ab cdefgh" at width 4: all eight letters come out, in order, over three lines -/
 example :
